@@ -33,18 +33,6 @@ theorem setup_upgrade (c : Mhd.Reply.Conn) (r : Mhd.Resp.Resp) (code : Nat) (hu 
   unfold setupReplyProperties keepalivePossible
   simp [hk', hu, hb]
 
-/-- on a connection that IS in MUST_CLOSE the decision is MUST_CLOSE also for an upgrade response
-    (boundary of the theorems below; `build_header_response` asserts this away in debug builds) -/
-theorem setup_upgrade_mustClose (c : Mhd.Reply.Conn) (r : Mhd.Resp.Resp) (code : Nat)
-    (hk : c.keepalive = .mustClose) (hc : code ≤ 199) :
-    (setupReplyProperties c r code).1 = .mustClose := by
-  have hb : isReplyBodyNeeded c.mthd code = .none := by
-    unfold isReplyBodyNeeded
-    have : (199 ≥ code) := hc
-    simp [this]
-  unfold setupReplyProperties keepalivePossible
-  simp [hk, hb]
-
 /-! ### what the application stored, as wire fields -/
 
 /-- header-kind entries that are sent on a 1xx reply: all but "Transfer-Encoding" / "Content-Length" -/
